@@ -852,7 +852,17 @@ fn ingress_run(part: &'static str, k: usize, seq: Vec<usize>, order_kind: &'stat
         o += s;
         cuts.push(o);
     }
-    let frames = match frames_for(&cfg, &inb, rng.u16(), &cuts) {
+    // one datagram in four travels with IPv4 options in every fragment header (NOPs and an end
+    // marker, or the copied Router Alert option): the header is then 24 or 28 octets long
+    let opts: &[u8] = match rng.below(8) {
+        0 => &[0x01, 0x01, 0x01, 0x00],
+        1 => &[0x94, 0x04, 0x00, 0x00, 0x01, 0x01, 0x01, 0x00],
+        _ => &[],
+    };
+    if !opts.is_empty() {
+        out.count("ingress_datagrams_with_ipv4_options", 1);
+    }
+    let frames = match crate::sim::dgram::frames_for_opts(&cfg, &inb, rng.u16(), &cuts, opts) {
         Ok(f) => f,
         Err(e) => {
             out.harness_errors.push(format!("cannot fragment: {} (sizes {:?})", e, sizes));
